@@ -20,7 +20,10 @@ static std::vector<json> leaves() {
     for (auto t : tags) {
         v.push_back(json(jsoncons::null_type(), t)); v.push_back(json(true, t)); v.push_back(json(int64_t(-1), t)); v.push_back(json(INT64_MIN, t)); v.push_back(json(uint64_t(1600000000), t)); v.push_back(json(UINT64_MAX, t));
         v.push_back(json(1.5, t)); v.push_back(json(jsoncons::half_arg, uint16_t(0x3c00), t));
-        for (auto s : {"", "1", "-12345678901234567890123", "1.5e-400", "0x1p+3", "abc", "2020-01-01T00:00:00Z", "\xff\xfe", "a long string that needs the heap ................", "1e", "-", "0x", "18446744073709551616e18446744073709551616"}) v.push_back(json(s, t));
+        for (auto s : {"", "1", "-12345678901234567890123", "1.5e-400", "0x1p+3", "abc", "2020-01-01T00:00:00Z", "\xff\xfe", "a long string that needs the heap ................", "1e", "-", "0x", "18446744073709551616e18446744073709551616",
+                       // integers at the edges of what a timestamp's seconds / milliseconds / nanoseconds fields hold
+                       "9223372036854775807", "-9223372036854775808", "9223372036854775808", "-9223372036854775809", "9223372036854775807999", "-9223372036854775808001", "-9223372036854775808000",
+                       "9223372036854775807999999999", "-9223372036854775808000000001", "-9223372036854775808000000000", "18446744073709551615", "4294967296", "17179869184"}) v.push_back(json(s, t));
         v.push_back(json(jsoncons::byte_string_arg, Bytes{}, t)); v.push_back(json(jsoncons::byte_string_arg, Bytes{0, 255, 16}, t));
         v.push_back(json(jsoncons::json_array_arg, t)); v.push_back(json(jsoncons::json_object_arg, t));
     }
